@@ -120,6 +120,12 @@ pub fn schedules(seed: u64, n: usize) -> RunOut {
         let mut jmarks: Vec<(usize, usize)> = vec![]; // journal lengths (W, R) at each completion
         let mut steps = 0u64;
         let mut preempt_mid_call = 0u64;
+        // "fair" cases: a pause after every poll lets a task that waits for the lock age past
+        // async-lock's anti-starvation threshold (0.5 ms), after which the lock is handed to waiters
+        // in FIFO order instead of being re-taken by the task that just released it — so a waiter can
+        // run between two lock acquisitions of one call, as it would on a multi-threaded executor.
+        let fair = case % 3 == 2;
+        if fair { *out.stats.entry("fair_handover_cases".into()).or_insert(0) += 1; }
         while tasks.iter().any(|t| t.is_some()) {
             let live: Vec<usize> = (0..tasks.len()).filter(|i| tasks[*i].is_some()).collect();
             // mostly random; sometimes stick with one task for a burst
@@ -134,6 +140,7 @@ pub fn schedules(seed: u64, n: usize) -> RunOut {
                 let after = done.lock().unwrap().len();
                 for _ in before..after { jmarks.push((wworld.lock().unwrap().journal.len(), rworld.lock().unwrap().journal.len())); }
                 if after == before { preempt_mid_call += 1; }
+                if fair { std::thread::sleep(std::time::Duration::from_micros(800)); }
                 if steps > 200_000 { break; }
             }
             if steps > 200_000 { break; }
